@@ -25,6 +25,7 @@ type structFieldSet struct {
 
 type structDecoder struct {
 	fieldMap           map[string]*structFieldSet
+	lowerFieldMap      map[string]*structFieldSet // lower-cased name -> first field with that name
 	fieldUniqueNameNum int
 	stringDecoder      *stringDecoder
 	structName         string
@@ -379,6 +380,10 @@ func decodeKey(d *structDecoder, buf []byte, cursor int64) (int64, *structFieldS
 	k := *(*string)(unsafe.Pointer(&key))
 	field, exists := d.fieldMap[k]
 	if !exists {
+		// no exact match: match case-insensitively like the bitmap matchers do
+		field, exists = d.lowerFieldMap[strings.ToLower(k)]
+	}
+	if !exists {
 		return cursor, nil, nil
 	}
 	return cursor, field, nil
@@ -667,7 +672,12 @@ func decodeKeyStream(d *structDecoder, s *Stream) (*structFieldSet, string, erro
 		return nil, "", err
 	}
 	k := *(*string)(unsafe.Pointer(&key))
-	return d.fieldMap[k], k, nil
+	field, exists := d.fieldMap[k]
+	if !exists {
+		// no exact match: match case-insensitively like the bitmap matchers do
+		field = d.lowerFieldMap[strings.ToLower(k)]
+	}
+	return field, k, nil
 }
 
 func (d *structDecoder) DecodeStream(s *Stream, depth int64, p unsafe.Pointer) error {
